@@ -121,6 +121,19 @@ def gen_cases(tier, seed):
                     [_col(t, optional=opt, nulls=nulls, use_dict=use_dict, distinct=7 if use_dict else None, page_version=ver, page_rows=[11, 30]),
                      _col("f64", name="x", page_version=ver)],
                     rgs=(41, 20), codec=RC.CODECS[k[0] % len(RC.CODECS)], pandas_units_={"c": u})
+    # --- the same with DELTA_BINARY_PACKED values (another in-place path of v2 pages)
+    for t, units in finer.items():
+        if not t.startswith("ts_"):
+            continue
+        for u in units:
+            for ver in (1, 2):
+                add("PD/%s/%s/v%d" % (t, u, ver), [_col(t, optional=False, nulls="none", encoding="DELTA_BINARY_PACKED", delta_bits=20, page_version=ver, page_rows=[11, 30]),
+                                                   _col("f64", name="x", page_version=ver)], rgs=(41, 20), pandas_units_={"c": u})
+    # --- pandas metadata that does not list the time column at all (only the other column)
+    for t in ("ts_ms", "ts_us", "ts_ns_l", "time_us", "date"):
+        for ver in (1, 2):
+            add("PO/%s/v%d" % (t, ver), [_col(t, optional=True, nulls="p20", page_version=ver, page_rows=[11, 30]), _col("f64", name="x", page_version=ver)],
+                rgs=(41,), pandas_units_={"c": "omit"})
     # --- outside the supported set: must be refused
     for u in ("DELTA_LENGTH_BYTE_ARRAY", "DELTA_BYTE_ARRAY", "BYTE_STREAM_SPLIT", "LZO_CODEC"):
         for ver in (1, 2):
@@ -288,7 +301,7 @@ def run_case(case):
                                             "got_dtype": str(got[name].dtype), **ctx, **cd})
                 counters["cells_compared"] = counters.get("cells_compared", 0) + len(ev)
             pu = (rec.get("pandas_units") or {}).get(name)
-            if pu and ("[%s" % pu) not in str(got[name].dtype):
+            if pu and pu != "omit" and ("[%s" % pu) not in str(got[name].dtype):
                 res["failures"].append({"kind": "resolution_of_pandas_metadata_not_honoured", "column": name, "wanted_unit": pu, "got_dtype": str(got[name].dtype), **ctx, **cd})
             if not dtype_family_ok(c["type"], got[name].dtype):
                 res["failures"].append({"kind": "dtype_family", "column": name, "got_dtype": str(got[name].dtype), **ctx, **cd})
